@@ -285,6 +285,114 @@ theorem C05_zrangebyscore (pf : FloatOracle) (srv : SrvSt) (conn : ConnSt) (c k 
   have := dispatch_callRet pf srv conn c _ (execZRangeByScore pf false) _ hh ha (by rw [hu]; decide) (by rw [hu]; rfl) hx
   rw [hu] at this; exact this
 
+
+/-- **ZRANGE** `key start stop [options]`, index form: integer tokens, any options except BYSCORE – one `ZRange` call -/
+theorem C05_zrange_index (pf : FloatOracle) (srv : SrvSt) (conn : ConnSt) (c k a b : Bytes) (i j : Int) (items : List RangeItem)
+    (hh : srv.hasHandler = true) (ha : conn.authorized = true) (hu : upper c = b!"ZRANGE")
+    (h1 : atoi a = some i) (h2 : atoi b = some j) (hi : ∀ it ∈ items, it.ok)
+    (hb : (items.foldl RangeItem.apply {}).byscore = false) :
+    executeCommand pf srv conn c (B k :: B a :: B b :: items.flatMap RangeItem.msgs) =
+      singleCall b!"ZRANGE" (.zrange k i j (items.foldl RangeItem.apply {})) conn srv := by
+  have hane : a ≠ [] := by intro e; subst e; simp [atoi] at h1
+  have hbne : b ≠ [] := by intro e; subst e; simp [atoi] at h2
+  have hx : execZRange pf (B k :: B a :: B b :: items.flatMap RangeItem.msgs) = callRet (.zrange k i j (items.foldl RangeItem.apply {})) := by
+    simp only [execZRange, withArgs, nextString_B]
+    simp [hane, hbne, C05_range_options items hi, hb, h1, h2]
+  have := dispatch_callRet pf srv conn c _ (execZRange pf) _ hh ha (by rw [hu]; decide) (by rw [hu]; rfl) hx
+  rw [hu] at this; exact this
+
+/-- **ZRANGE … BYSCORE**: the bounds are score bounds with their open/closed marker – one `ZRangeByScore` call -/
+theorem C05_zrange_byscore (pf : FloatOracle) (srv : SrvSt) (conn : ConnSt) (c k a b : Bytes) (items : List RangeItem)
+    (mn mx : UInt64) (mnx mxx : Bool)
+    (hh : srv.hasHandler = true) (ha : conn.authorized = true) (hu : upper c = b!"ZRANGE")
+    (h1 : rangeScore pf a = .ok (mn, mnx)) (h2 : rangeScore pf b = .ok (mx, mxx)) (hi : ∀ it ∈ items, it.ok)
+    (hb : (items.foldl RangeItem.apply {}).byscore = true) :
+    executeCommand pf srv conn c (B k :: B a :: B b :: items.flatMap RangeItem.msgs) =
+      singleCall b!"ZRANGE" (.zrangebyscore k mn mx { items.foldl RangeItem.apply {} with minex := mnx, maxex := mxx }) conn srv := by
+  have hane : a ≠ [] := by intro e; subst e; simp [rangeScore] at h1
+  have hbne : b ≠ [] := by intro e; subst e; simp [rangeScore] at h2
+  have hx : execZRange pf (B k :: B a :: B b :: items.flatMap RangeItem.msgs) =
+      callRet (.zrangebyscore k mn mx { items.foldl RangeItem.apply {} with minex := mnx, maxex := mxx }) := by
+    simp only [execZRange, withArgs, nextString_B]
+    simp [hane, hbne, C05_range_options items hi, hb, h1, h2]
+  have := dispatch_callRet pf srv conn c _ (execZRange pf) _ hh ha (by rw [hu]; decide) (by rw [hu]; rfl) hx
+  rw [hu] at this; exact this
+
+/-! ### ZADD: the flag prefix, then score/member pairs -/
+
+def isZFlag (u : Bytes) : Bool := (zaddFlag u {}).isSome
+
+/-- whether a token is a flag does not depend on the options collected so far -/
+theorem zaddFlag_isSome_eq (u : Bytes) (o o' : ZAddOpt) : (zaddFlag u o).isSome = (zaddFlag u o').isSome := by
+  unfold zaddFlag
+  by_cases h1 : u = b!"NX"; · simp [h1]
+  by_cases h2 : u = b!"XX"; · simp [h1, h2]
+  by_cases h3 : u = b!"GT"; · simp [h1, h2, h3]
+  by_cases h4 : u = b!"LT"; · simp [h1, h2, h3, h4]
+  by_cases h5 : u = b!"CH"; · simp [h1, h2, h3, h4, h5]
+  by_cases h6 : u = b!"INCR"; · simp [h1, h2, h3, h4, h5, h6]
+  simp [h1, h2, h3, h4, h5, h6]
+
+theorem zaddFlag_some (u : Bytes) (o : ZAddOpt) (h : isZFlag u = true) : ∃ o', zaddFlag u o = some o' := by
+  have : (zaddFlag u o).isSome = true := by rw [zaddFlag_isSome_eq u o {}]; exact h
+  exact Option.isSome_iff_exists.mp this
+
+/-- what a flag does to the options (the flag names in any letter case) -/
+def zflagApply (o : ZAddOpt) (f : Bytes) : ZAddOpt := (zaddFlag (upper f) o).getD o
+
+theorem zaddHead_flags (pf : FloatOracle) (flags : List Bytes) (hf : ∀ f ∈ flags, isZFlag (upper f) = true)
+    (o : ZAddOpt) (tok : Bytes) (rest : List Msg) (ht : isZFlag (upper tok) = false) :
+    zaddHead pf o (flags.map B ++ B tok :: rest) = .ok (flags.foldl zflagApply o, B tok :: rest) := by
+  induction flags generalizing o with
+  | nil =>
+    have : zaddFlag (upper tok) o = none := by
+      have h := zaddFlag_isSome_eq (upper tok) o {}
+      unfold isZFlag at ht
+      rw [ht] at h
+      cases hz : zaddFlag (upper tok) o with
+      | none => rfl
+      | some o' => rw [hz] at h; simp at h
+    simp [zaddHead, B, msgStr, this]
+  | cons f fs ih =>
+    obtain ⟨o', ho'⟩ := zaddFlag_some (upper f) o (hf f (by simp))
+    have := ih (fun g hg => hf g (List.mem_cons_of_mem _ hg)) o'
+    simp only [List.map_cons, List.cons_append, List.foldl_cons]
+    rw [show zflagApply o f = o' by simp [zflagApply, ho']]
+    rw [← this]
+    simp [zaddHead, B, msgStr, ho']
+
+theorem zaddPairs_ok (pf : FloatOracle) (ps : List (Bytes × UInt64 × Bytes)) (hp : ∀ p ∈ ps, pf p.1 = some p.2.1) :
+    zaddPairs pf (ps.flatMap fun p => [B p.1, B p.2.2]) = .ok (ps.map fun p => (p.2.1, p.2.2)) := by
+  induction ps with
+  | nil => rfl
+  | cons p ps ih =>
+    have h1 := hp p (by simp)
+    have h2 := ih (fun q hq => hp q (List.mem_cons_of_mem _ hq))
+    simp only [List.flatMap_cons, List.cons_append, List.nil_append, List.map_cons]
+    simp only [B] at h2 ⊢
+    simp [zaddPairs, msgStr, h1, h2]
+
+/-- **ZADD** `key [NX|XX] [GT|LT] [CH] [INCR] score member [score member …]`: flags in any letter case, every pair in
+the order sent with exactly the decoded score – one `ZAdd` call -/
+theorem C05_zadd (pf : FloatOracle) (srv : SrvSt) (conn : ConnSt) (c k : Bytes) (flags : List Bytes)
+    (p : Bytes × UInt64 × Bytes) (ps : List (Bytes × UInt64 × Bytes))
+    (hh : srv.hasHandler = true) (ha : conn.authorized = true) (hu : upper c = b!"ZADD")
+    (hf : ∀ f ∈ flags, isZFlag (upper f) = true) (hp : ∀ q ∈ p :: ps, pf q.1 = some q.2.1)
+    (hfirst : isZFlag (upper p.1) = false) :
+    executeCommand pf srv conn c (B k :: (flags.map B ++ (p :: ps).flatMap fun q => [B q.1, B q.2.2])) =
+      singleCall b!"ZADD" (.zadd k ((p :: ps).map fun q => (q.2.1, q.2.2)) (flags.foldl zflagApply {})) conn srv := by
+  have hx : execZAdd pf (B k :: (flags.map B ++ (p :: ps).flatMap fun q => [B q.1, B q.2.2])) =
+      callRet (.zadd k ((p :: ps).map fun q => (q.2.1, q.2.2)) (flags.foldl zflagApply {})) := by
+    have hhead := zaddHead_flags pf flags hf {} p.1 (B p.2.2 :: ps.flatMap fun q => [B q.1, B q.2.2]) hfirst
+    have hpairs := zaddPairs_ok pf (p :: ps) hp
+    simp only [List.flatMap_cons, List.cons_append, List.nil_append] at hhead hpairs ⊢
+    simp only [execZAdd, withArgs, nextString_B, hhead, hpairs]
+    simp
+  have := dispatch_callRet pf srv conn c _ (execZAdd pf) _ hh ha (by rw [hu]; decide) (by rw [hu]; rfl) hx
+  rw [hu] at this; exact this
+
+example : isZFlag (upper b!"incr") = true ∧ isZFlag (upper b!"1.5") = false ∧ isZFlag (upper b!"-inf") = false := by decide
+
 /-! ## Non-vacuity -/
 
 example : (⟨.exp .px 1500, b!"pX", b!"1500"⟩ : Spelled).ok := by
